@@ -756,3 +756,39 @@ def generic_rules(prop, index, rep):
         nl = ignored_item_rule(index, rep, rid2, mods)
         ng = guard_object_rule(index, rep, rid2, mods)
         rep.ob(rid2, "src/dendropy", "%d nested loops and %d None-guards in the property's modules examined" % (nl, ng), True, nontrivial=nl + ng > 0)
+
+
+def borrow(index, rep, other_prop, rule_ids, as_rid, tier="quick"):
+    """Run another property's rules and take over the obligations / findings of the selected rule ids under `as_rid`:
+    several properties depend on one mechanism (e.g. the weighted distances on what encode_bipartitions caches)."""
+    import importlib
+    from ..core import Report
+    mod = importlib.import_module("sa.rules.%s" % other_prop.lower())
+    tmp = Report(other_prop, index)
+    try:
+        mod.run(index, tmp, tier)
+    except AnalysisError as e:
+        tmp.errors.append(str(e))
+    n = 0
+    for o in tmp.obligations:
+        if o["rule"] in rule_ids:
+            o2 = dict(o)
+            o2["rule"] = as_rid
+            o2["instance"] = "[%s %s] %s" % (other_prop, o["rule"], o["instance"])
+            rep.obligations.append(o2)
+            n += 1
+    from ..core import load_known, match_known
+    known = load_known()
+    for f in tmp.findings:
+        if f["rule"] in rule_ids:
+            if match_known(f, known) is not None:
+                continue        # an open known finding of the lending property is reported there, once
+            f2 = dict(f)
+            f2["property"] = rep.prop
+            f2["rule"] = as_rid
+            f2["message"] = "[shared with %s %s] %s" % (other_prop, f["rule"], f["message"])
+            rep.findings.append(f2)
+    for e in tmp.errors:
+        if any(e.startswith(r) for r in rule_ids):
+            rep.errors.append("%s (borrowed from %s): %s" % (as_rid, other_prop, e))
+    return n
